@@ -156,6 +156,7 @@ struct Config {
 	int jobs = 16;
 	std::string evidencePath, knownPath, replayDir, scratchBase, onlyFamily, fpLog;
 	uint64_t countOverride = 0;
+	uint64_t scalePermille = 1000; // --scale: run this fraction of every family's fixed count (second-compiler lane)
 	std::string self;
 	double shrinkBudgetS = 120;
 	int shrinkBudgetCands = 400;
@@ -194,7 +195,9 @@ struct Item { size_t part; uint64_t idx; };
 
 static uint64_t partCount(const Config& cfg, const Part& p) {
 	if (cfg.countOverride) return cfg.countOverride;
-	return cfg.thorough ? p.thorough : p.quick;
+	uint64_t n = cfg.thorough ? p.thorough : p.quick;
+	if (cfg.scalePermille != 1000) { n = n * cfg.scalePermille / 1000; if (n < 8) n = std::min<uint64_t>(8, cfg.thorough ? p.thorough : p.quick); }
+	return n;
 }
 
 // global item k -> (part, idx)
@@ -631,6 +634,7 @@ int superviseMain(int argc, char** argv) {
 		else if (a == "--scratch") cfg.scratchBase = next();
 		else if (a == "--family") cfg.onlyFamily = next();
 		else if (a == "--count") cfg.countOverride = parseU64(next());
+		else if (a == "--scale") cfg.scalePermille = parseU64(next());
 		else if (a == "--fplog") cfg.fpLog = next();
 		else throw std::runtime_error("unknown option " + a);
 	}
